@@ -9,6 +9,9 @@ TRUST = ("crosshair-tool 0.0.110 + z3 5.1.0 models of Python builtins; the state
 
 EV = "CrossHair/z3 bounded symbolic execution of one level of the real Context.evaluate (EVAL-STEP induction lemma: recursive evaluation replaced by an arbitrary prepared state)"
 CHECKS = {
+ "C01": dict(level="model_checking", technique=EV + "; plus argument-binding, namespace-resolution and predecessor kernels on the real CommandExecutable / CommandRegistry / Query classes with symbolic argument content",
+             text="(a) binding: int text -99..99 in 6 forms, bool words x case + free |s|<=1, free str |s|<=2, float pool, arity 0..5 for 9 signature shapes (typed, defaulted, variadic, context, state-taking, first-command), keyword-extra subsets - each bound exactly like the documented rule or refused; (b) first active namespace that has the command; (c) step lemma over 8 (thorough 13) queries: value = f(S_P.data, converted args), variables = S_P's updated by the action, last recorded command, predecessor requested as exactly predecessor(Q); base case with/without injected input; file name only labels; (d) absolute/relative link lemma; (e) predecessor algebra on Query objects of symbolic shape.",
+             design="§4 C01"),
  "C04": dict(level="model_checking", technique=EV + "; relational comparison cache vs NoCache",
              text="Step lemma: for each query of the family (typed/volatile/failing/bad-argument/state-variable/cache-disabling/in-place-mutating commands, as-typed vs canonical spelling, trailing file name, extra parameters, sub-evaluation from a command) and every predecessor state (symbolic data, error/volatile/caching flags, variable) and every cache pre-state for Q, the outcome (value or failure, volatility, variables, file name, extension) with the cache equals the outcome with NoCache, and the predecessor is requested with the same cache object. Quick: MemoryCache and Memory+Memory; thorough: 10 in-process configurations incl. conditional wrappers, StoreCache, FileCache/ShimFS.",
              design="§4 C04"),
